@@ -8,6 +8,8 @@ RULE = ("seeded histories on the Container contract compiled from the working tr
         "addNextEpochNodes in 1..3 batches per vector (sizes 0..12 and the scripts 300/2, 129/128/3, 257/1, 127/1/256, 128/255, 256/2/1 "
         "so that the two-byte counter crosses 127|128 and 255|256 inside and between batches), commits with REP 0..5/127/128/255 as "
         "ByteString and as Array, null and empty commits, re-commits; nodes/replicasNumbers reads incl. vector -129/-128/-1/254/255/256; "
+        "rosters that list one key twice in a vector (node submitted again in a later batch) or in two vectors, with the rows {same signature twice, "
+        "signature + (r,n-s) twin, two signatures with different nonces, the node + another member}; "
         "verifyPlacementSignatures and submitObjectPut with real secp256r1 signatures in 18 matrix kinds (honest, junk in front, one short, "
         "one member repeated, (r,n-s) twin, non-member, member of another vector, wrong message, wrong length, surplus, missing/extra/null "
         "vector, null/empty matrix, all junk); meta-information defects (absent key, wrong lengths, network, validuntil 0/-1/+1, not a map); "
